@@ -103,7 +103,11 @@ def r0d(src):  # GOROOT/src/runtime/select.go: poll order of select cases owned 
     return src.replace(old, "\t\tj := verifSelectRandn(uint32(norder + 1))\n") + R0D_TAIL, src.count(old), 1
 
 
-def r1(src):  # h2/h2.go: tls.Dial -> verifDial (falls back to tls.Dial when VerifDial is nil)
+def r1(src):  # h2/h2.go: the upstream dial goes through the dial hook (which falls back to a real dial)
+    # two forms of the tree: `sc, err := dialTLS(ctx, ...)` (context-aware, since fix of C10) and
+    # the older `tls.Dial(...)`
+    if ":= dialTLS(" in src:
+        return src.replace(":= dialTLS(", ":= verifDialContext("), src.count(":= dialTLS("), 1
     n = src.count("tls.Dial(")
     return src.replace("tls.Dial(", "verifDial("), n, 1
 
